@@ -7,7 +7,7 @@ import ast
 from framelint.core import rule, Ctx
 from framelint.srcmodel import walk_own, AnalysisError
 from framelint.canon import (canon_function, show, S, to_poly, mk_lt, mk_not, mk_and, mk_or, mk_eq, k_num, k_str, contains, skey, atoms_of, Sigma,
-                             K_TRUE, single_defs, deref, Poly, diff_paths)
+                             K_TRUE, K_NONE, single_defs, deref, Poly, diff_paths)
 from .common import posted_unconditionally, RECT, RECTIO, SATM, call_name, norm_stmt
 from .C01 import _alpha
 
@@ -103,13 +103,13 @@ def r2(ctx: Ctx) -> None:
     # the monotonicity chains link every pair of consecutive grid coordinates
     for axis, coords, (lil, big), prev in [("x", "xcoords", (lx, bx), "prev_x"), ("y", "ycoords", (ly, by), "prev_y")]:
         cl = ("a", CAR, coords)
-        want_iter = ("c", ("g", "range"), (k_num(1), ("c", ("g", "len"), (cl,), ())), ())
+        # every coordinate but the first, as elements ('for x in coords[1:]'; the index spelling has this form too)
+        want_iter = ("s", cl, ("slice", k_num(1), K_NONE, K_NONE))
         chains = [lp for lp in first if lp[2] == want_iter]
-        ctx.site(f.where, f"{axis} chain covers all consecutive coordinates: range(1, len({coords}))", found=len(chains))
+        ctx.site(f.where, f"{axis} chain covers all consecutive coordinates: {coords}[1:]", found=len(chains))
         ok = False
         for lp in chains:
-            i = lp[1]
-            cur = ("s", cl, i)
+            cur = lp[1]
             prv = ("s", ("a", CAR, prev), cur)
 
             def imp(a, b):
